@@ -114,6 +114,10 @@ def run_cases(ctx, cases, official_compile=True, check_spec=True, check_model=Tr
         for i, env in enumerate(c["envs"]):
             out = im["out"][i]
             ctx.count("out:" + ("group" if "g" in out else out.get("e", "?")))
+            if c.get("must_compile") and prog is None and im["compile"] == "ok" and "g" not in out and out.get("e") not in ("Unroutable", "MissingField", "TypeError"):
+                # a corpus text evaluated on type-compatible inputs ends with one of its groups or with the unroutable error — nothing else
+                ctx.violation(f"evaluation ends with {json.dumps(out)[:80]} (neither a group nor the unroutable error): {c['text'][:120]}… on {json.dumps(common.enc_env(env))[:120]}",
+                              {"text": c["text"], "env": common.enc_env(env), "impl": out}, key=c.get("key"))
             if m is not None and check_model:
                 mo = m["out"][i]
                 if not model_matches(mo, out):
